@@ -293,7 +293,8 @@ def handleClientKeyExchange (C : Crypto) (L : Loc) (e : Ep) (body : Bytes) : R :
       | some k => ok { e with ctx := { c0 with keys := some k },
                               evs := .keys L.pub pk (c0.clientRandom.getD []) (c0.serverRandom.getD []) c0.ems c0.transcript k :: e.evs }
 
-/-- publishing `Connected`: state, then the two atomics, then `local_secret = None` -/
+/-- publishing `Connected`: `write_epoch`, `write_seq`, then the state (sequentially one step here; the interleaving with
+concurrent senders is `DtlsRecord.PSys`), then `local_secret = None` -/
 def connect (e : Ep) (k : Keys) (verifiedOver : Bytes) (body : Bytes) : Ep :=
   { e with conn := .connected, connKeys := some k, connSrtp := e.ctx.srtp,
            evs := .finished k verifiedOver body :: e.evs,
@@ -339,9 +340,10 @@ def handleFinishedClient (C : Crypto) (e : Ep) (body : Bytes) : R :=
     if body ≠ C.vd k.ms false e.ctx.transcript then failed e
     else ok (connect e k e.ctx.transcript body)
 
-/-- `handle_hello_verify_request` (no role test in the code) -/
+/-- `handle_hello_verify_request`: a server ignores the message (`if !is_client { return Ok(()) }`) -/
 def handleHvr (C : Crypto) (L : Loc) (e : Ep) (body : Bytes) : R :=
-  if C.hvrOk body then
+  if !e.isClient then ok e
+  else if C.hvrOk body then
     let c0 := { e.ctx with transcript := [] }
     let raw := rawMsg dtlsHtClientHello c0.msgSeq L.ch2Body
     let c1 := { c0 with transcript := raw }
@@ -385,9 +387,10 @@ def clientFinalFlight (C : Crypto) (c : Ctx) (k : Keys) : List WRec × Ctx :=
   let (rf, c4) := emitMsg c3 dtlsHtFinished (C.vd k.ms true c3.transcript) true
   ([rc, rf], c4)
 
-/-- `handle_server_hello_done` -/
+/-- `handle_server_hello_done`: a server ignores the message; a client that already has keys too -/
 def handleServerHelloDone (C : Crypto) (L : Loc) (e : Ep) : R :=
-  if e.ctx.keys.isSome then ok e
+  if !e.isClient then ok e
+  else if e.ctx.keys.isSome then ok e
   else if e.isClient && !e.ctx.skeVerified then failed e
   else
     let kc := emitMsg e.ctx dtlsHtClientKeyExchange L.ckeBody false
